@@ -19,7 +19,10 @@ RULE = ("real AdaptationManager (fresh per case) over hierarchies built with typ
         "between repetitions of the same adapt / supports / trait queries, the line carrying the new issubclass table; "
         "adaptee VALUES of awkward kinds (tuples of length 0/1/2/3, namedtuples, tuple / str subclasses, str / bytes with '%', "
         "dicts, lists; objects whose __repr__ raises or is not a str only in calls that build no message) through the "
-        "manager and the module-level adapt / supports_protocol, the failure judged on the exact exception class.  Exhaustive scope: 12 hierarchies on 3 types x every ordered sequence of <= 2 offers x "
+        "manager and the module-level adapt / supports_protocol, the failure judged on the exact exception class; a share "
+        "of the offers (kinds z / e / g on the line) build adapters that are alive but falsy (__bool__ False, __len__ 0, "
+        "empty dict subclass), a share of the adaptee classes have falsy instances (__bool__ False, HasTraits with "
+        "__len__ 0, 0 / '' / () / {} / []), defaults are falsy: only None declines.  Exhaustive scope: 12 hierarchies on 3 types x every ordered sequence of <= 2 offers x "
         "every factory table x all (source, target) (quick); 12 hierarchies on 4 types x <= 3 offers x failing-offer sets "
         "(thorough).  Plus CPython list.sort(cmp_to_key) with arbitrary non-transitive tables and heapq against the two "
         "CPython models.  A case is non-trivial when a query went through _adapt (factory log non-empty) or raised; "
@@ -155,6 +158,13 @@ def _guarded(fn):
         return None, e
 
 
+def _truth(x):
+    try:
+        return bool(x)
+    except Exception:
+        return True
+
+
 def _hit(sig, what, **kw):
     d = {"signature": sig, "what": what}
     d.update(kw)
@@ -173,7 +183,7 @@ def _show_obj(ctx, src, r, dflt_cls=L.Default):
         return "default"
     if r is src:
         return "self"
-    if isinstance(r, L.Ad):
+    if isinstance(r, L.ADS):
         return "chain " + ">".join("o%d" % i for i in r.prov)
     return "other"
 
@@ -212,6 +222,8 @@ def run_impl(case):
         tags.add("parallel-offers")
     if any(o[4] == "p" for o in offers):
         tags.add("identity-factory")
+    if any(o[4] in L.FALSY_OFFER_KINDS for o in offers):
+        tags.add("falsy-adapters")
     if ctx.byord:
         tags.add("ordinal-table")
     tags.add("offers=%d" % len(offers))
@@ -249,6 +261,8 @@ def run_impl(case):
         vkind = L.value_kind(hier, s, is_none)
         if vkind not in ("plain", "None"):
             tags.add("value:" + vkind)
+        if src is not None and not _truth(src):
+            tags.add("falsy-adaptee")
         src_type = type(src)
         target = hier.types[t]
         ctx.reset(src)
@@ -378,7 +392,7 @@ def _show_h(pool, v):
     for j, o in enumerate(pool):
         if v is o:
             return "obj%d" % j
-    if isinstance(v, L.Ad):
+    if isinstance(v, L.ADS):
         return "chain %s@%s#%s" % (">".join("o%d" % i for i in v.prov), v.root, v.step)
     if isinstance(v, L.Default):
         return "default#%s" % v.step
@@ -492,7 +506,7 @@ def _run_history(q, hier, offers, ftab, tags):
             def same(a, b):
                 if a is b:
                     return True
-                return isinstance(a, L.Ad) and isinstance(b, L.Ad) and (a.prov, a.root) == (b.prov, b.root)
+                return isinstance(a, L.ADS) and isinstance(b, L.ADS) and (a.prov, a.root) == (b.prov, b.root)
             if not same(adapted, ref):
                 if cls == "A" and ref is src:
                     # known (F81): adapt() now gives the value itself, old_value is that same object: 'unchanged'
@@ -639,7 +653,7 @@ def _oracle_trait(cls, mode, an, src, target, exc, x, x_, ref, ref_exc, trait_lo
     def same(a, b):
         if a is b:
             return True
-        return isinstance(a, L.Ad) and isinstance(b, L.Ad) and a.prov == b.prov
+        return isinstance(a, L.ADS) and isinstance(b, L.ADS) and a.prov == b.prov
     if src is None:
         # None: accepted iff allow_none, in every mode (it is never tested against the class)
         accept = bool(an)
